@@ -29,8 +29,8 @@ OPTS_Q = [{}, {'trivia': False}, {'trivia': ('all', 'all')}, {'pars': True}, {'p
 OPTS_T = OPTS_Q + [{'trivia': 'all'}, {'trivia': 'block+1'}, {'pep8space': 1}, {'elif_': False}, {'docstr': False},
                    {'docstr': 'strict'}, {'coerce': False}]
 ALPHA = {
-    'quick': [dict(nk=6, nks=3, opts=OPTS_Q), dict(nk=1, nks=1, forms=('src',), opts=({},))],
-    'thorough': [dict(nk=15, nks=7, opts=OPTS_T), dict(nk=3, nks=2, forms=('src', 'fst'), opts=({}, {'trivia': False})),
+    'quick': [dict(nk=7, nks=3, opts=OPTS_Q), dict(nk=1, nks=1, forms=('src',), opts=({},))],
+    'thorough': [dict(nk=16, nks=7, opts=OPTS_T), dict(nk=3, nks=2, forms=('src', 'fst'), opts=({}, {'trivia': False})),
                  dict(nk=1, nks=1, forms=('src',), opts=({},),
                       kinds=('replace', 'remove', 'put_slice', 'del_slice', 'insert'))],
 }
@@ -38,7 +38,7 @@ PARTS = {'quick': 4, 'thorough': 16}
 DEPTH = {'quick': 2, 'thorough': 2}
 DEPTH3_PROGRAMS = (0, 1, 5, 10, 11, 15, 22, 23, 28)
 BOUNDS = {
-    'quick': 'depth 1: 46 programs x full alphabet (6 codes/category, 3 slice codes, 3 forms, 5 option settings); '
+    'quick': 'depth 1: 47 programs x full alphabet (7 codes/category, 3 slice codes, 3 forms, 5 option settings); '
              'depth 2: every distinct state reached by the 2-code x (src, fst) x 2-option first-level alphabet, expanded with '
              'the 1-code alphabet',
     'thorough': 'depth 1: all 15 codes, 7 slice codes, 12 option settings; depth 2: 3 codes x 2 forms x 2 option sets from '
